@@ -124,6 +124,9 @@ class Interp:
         self.st = st
         self.loops = loops or {}          # (relpath, qualname, ordinal) -> LoopSpec
         self.summaries = summaries or {}  # (relpath, qualname) -> callable(interp, closure, args, kwargs)
+        # ('exit', relpath, qualname) -> [(label, expr)]: ensures evaluated in the callee's local scope at return
+        self.exit_checks = {k[1:]: v for k, v in self.loops.items() if isinstance(k, tuple) and k and k[0] == 'exit'}
+        self.comp_index = None
         self.depth = 0
         self.menvs = {}
         self.classes = {}
@@ -282,11 +285,16 @@ class Interp:
                 return self.eval(c.node.body, env)
             if any(isinstance(n, (ast.Yield, ast.YieldFrom)) for n in _walk_no_nested(c.node)):
                 raise Unsupported('generator function %s' % c.qualname)
+            rv = None
             try:
                 self.exec_block(c.node.body, env)
             except ReturnEx as r:
-                return r.value
-            return None
+                rv = r.value
+            for label, expr in self.exit_checks.get(key, ()):
+                tree = ast.parse(expr.strip(), mode='eval').body
+                e2 = Env({'result': rv}, env, env.module, env.cls, env.func)
+                self.st.check('%s/exit: %s' % (c.qualname, label), self.truth_term(self.eval(tree, e2)))
+            return rv
         finally:
             self.depth -= 1
 
@@ -667,6 +675,8 @@ class Interp:
                 if not isinstance(r, Ref):
                     raise Unsupported('modifies clause %s is not a heap cell' % mexpr)
                 refs.add(r)
+                if r.meta.get('parent') is not None:
+                    refs.add(('row', r.meta['parent'][0], r.meta['parent'][1].get_id()))
                 self.havoc_cell(r)
         for nme in sorted(assigned):
             e = self._find_env(nme, env)
@@ -873,12 +883,11 @@ class Interp:
 
     def try_pure(self, node, env, guard):
         """evaluate node under an extra assumption without forking; None if it may raise/branch"""
-        self.st.solver.push()
-        self.st.solver.add(guard)
+        self.st.push(guard)
         try:
             return self.eval_nofork(node, env)
         finally:
-            self.st.solver.pop()
+            self.st.pop()
 
     def ite(self, c, a, b):
         ka, kb = numkind(a), numkind(b)
@@ -912,12 +921,11 @@ class Interp:
                 try:
                     for r in rest:
                         # operands are evaluated under the guard that evaluation reaches them
-                        self.st.solver.push()
-                        self.st.solver.add(acc if isand else z3.Not(acc))
+                        self.st.push(acc if isand else z3.Not(acc))
                         try:
                             rv = self.eval_nofork(r, env)
                         finally:
-                            self.st.solver.pop()
+                            self.st.pop()
                         if rv is None:
                             ok = False
                             break
@@ -945,12 +953,9 @@ class Interp:
                 return True
             if z3.is_false(c):
                 return False
-            ft = self.st.feasible(c)
-            ff = self.st.feasible(z3.Not(c))
-            if ft and not ff:
-                return True
-            if ff and not ft:
-                return False
+            d = self.st.decide(c)
+            if d is not None:
+                return d
             raise _NoFork()
         self.st.branch = nb
         try:
@@ -1128,12 +1133,11 @@ class Interp:
         self.assign(g.target, item_of(SV(k, 'int')), cenv)
         self.comp_index = k
         try:
-            self.st.solver.push()
-            self.st.solver.add(k >= 0, k < n_term)
+            self.st.push(k >= 0, k < n_term)
             try:
                 v = self.eval_nofork(n.elt, cenv)
             finally:
-                self.st.solver.pop()
+                self.st.pop()
         finally:
             self.comp_index = None
         if v is None or numkind(v) is None:
@@ -1322,7 +1326,8 @@ def _is_pure_bool_expr(n):
         if isinstance(x, ast.Call):
             if not (isinstance(x.func, ast.Name) and x.func.id in ('abs', 'len', 'max', 'min', 'float', 'int', 'bool',
                                                                    'isinstance', 'hasattr', 'implies', 'iff', 'eq',
-                                                                   'truthy', 'Pow', 'Sqrt', 'forall', 'exists')):
+                                                                   'truthy', 'Pow', 'Sqrt', 'forall', 'exists', 'seq_eq',
+                                                                   'isinf', 'gt', 'ge', 'same', 'is_none', 'Log')):
                 return False
     return True
 
